@@ -162,6 +162,23 @@ def run(pid, t, replay=None):
                 raise ToolError("MC_Locks: " + tlc_error_summary(out))
         elif tlc_ok(out):
             raise ToolError("MC_Locks lost its sensitivity: an inverted edge no longer violates Ordered / NoDeadlock")
+    apalache = None
+    if t == "thorough":
+        # beyond the extracted pairs: for EVERY set of pairs that respects the ranks, three tasks never all wait (Apalache,
+        # symbolic over the edge set, bounded length); and some unordered set does deadlock
+        def apa(cinit, length):
+            out_dir = os.path.join(wd, "apalache_" + cinit)
+            p = subprocess.run(["apalache-mc", "check", "--cinit=" + cinit, "--inv=NoDeadlock", "--length=%d" % length, "--out-dir=" + out_dir,
+                                os.path.join(SPEC, "LocksApa.tla")], stdout=subprocess.PIPE, stderr=subprocess.STDOUT, text=True, timeout=1500, cwd=wd)
+            return p.stdout
+        o1 = apa("ConstInit", 9)
+        o2 = apa("ConstInitAny", 6)
+        if "The outcome is: NoError" not in o1:
+            raise ToolError("Apalache on LocksApa (ordered edge sets): " + o1[-800:])
+        if "The outcome is: Error" not in o2:
+            raise ToolError("Apalache on LocksApa lost its sensitivity (unordered edge sets must deadlock)")
+        apalache = "every rank-respecting edge set over the 5 locks, 3 tasks, 9 steps: no deadlock; some unordered set deadlocks within 6 steps"
+        log("Apalache: " + apalache)
     log("Locks: %d ranked edges, %d distinct states; %d inversion(s), %d reentrant acquisition(s) noted"
         % (len(ranked), dist, len(violations) + len(known_hits), len(set(reentrant))))
     coverage = dict(
@@ -170,6 +187,7 @@ def run(pid, t, replay=None):
         sites=counts, ranked_edges=["%s->%s" % e for e in ranked],
         reentrant_same_lock=sorted(set("%s:%s:%s" % r for r in reentrant)),
         guards_passed_to_callees={c: d["guards_passed_to_callees"] for c, d in data.items()},
+        apalache=apalache,
         wasm_gate=dict(wasm_info, ranked_sites=sum(1 for s in sites if s["lock"] in RANK), out_of_order_and_ungated=len(gate_viol)),
         samples=[data["saito-core"]["edges"][0]] if data["saito-core"]["edges"] else [],
         explanation="for every function and async body of the four crates the compiler's MIR gives the control-flow graph, the guard-typed locals and the "
